@@ -244,7 +244,7 @@ pub(crate) struct AuxiliaryFiles<'data> {
 impl<'data> AuxiliaryFiles<'data> {
     pub(crate) fn new(
         args: &'data impl platform::Args,
-        inputs_arena: &'data Arena<InputFile>,
+        file_loader: &mut FileLoader<'data>,
     ) -> Result<Self> {
         let resolve_script_path = |path: &Path| -> PathBuf {
             if path.exists() {
@@ -259,11 +259,11 @@ impl<'data> AuxiliaryFiles<'data> {
         Ok(Self {
             version_script_data: args
                 .version_script_path()
-                .map(|path| read_script_data(&resolve_script_path(path), inputs_arena))
+                .map(|path| read_script_data(&resolve_script_path(path), file_loader))
                 .transpose()?,
             export_list_data: args
                 .export_list_path()
-                .map(|path| read_script_data(&resolve_script_path(path), inputs_arena))
+                .map(|path| read_script_data(&resolve_script_path(path), file_loader))
                 .transpose()?,
         })
     }
@@ -514,12 +514,13 @@ fn process_archive<'data, P: Platform>(
 }
 
 fn process_thin_archive<'data, P: Platform>(
-    input_file: &InputFile,
+    input_file: &'data InputFile,
     state: &TemporaryState<'data, P>,
 ) -> Result<LoadedFileState<'data, P>> {
     let absolute_path = &input_file.filename;
     let parent_path = absolute_path.parent().unwrap();
-    let mut files = Vec::new();
+    // The thin archive itself is an input file too, not just the files that it references.
+    let mut files = vec![input_file];
     let mut parsed_files = Vec::new();
 
     for entry in ArchiveIterator::from_archive_bytes(input_file.data())? {
@@ -726,16 +727,20 @@ impl<'data, P: Platform> TemporaryState<'data, P> {
 
 fn read_script_data<'data>(
     path: &Path,
-    inputs_arena: &'data Arena<InputFile>,
+    file_loader: &mut FileLoader<'data>,
 ) -> Result<ScriptData<'data>> {
     let data = FileData::new(path, false).context("Failed to read script")?;
 
-    let file = inputs_arena.alloc(InputFile {
+    let file = &*file_loader.inputs_arena.alloc(InputFile {
         filename: path.to_owned(),
         original_filename: path.to_owned(),
         modifiers: Default::default(),
         data: Some(data),
     });
+
+    // Record the file, so that we check that it didn't change while we were running and so that it
+    // gets listed in the dependency file.
+    file_loader.loaded_files.push(file);
 
     Ok(ScriptData { raw: file.data() })
 }
